@@ -62,7 +62,7 @@ func (s *lockingStream) newVal(r *tr.Rng) *lval {
 func e18(n int64) *big.Int { return new(big.Int).Mul(big.NewInt(n), big.NewInt(1e18)) }
 
 func (s *lockingStream) setup(r *tr.Rng) {
-	s.params.unlock = int64(tr.Pick(r, 20, 60)) * 1e9
+	s.params.unlock = int64(tr.Pick(r, 20, 60, 600)) * 1e9 // 600 s: dozens of pending maturity slots at a time
 	s.params.exit = s.params.unlock + int64(tr.Pick(r, 0, 30, 100))*1e9
 	s.params.jail = int64(tr.Pick(r, 60, 90)) * 1e9
 	s.params.window = int64(tr.Pick(r, 4, 6, 10))
@@ -419,6 +419,10 @@ func (s *lockingStream) Gen(r *tr.Rng) *tr.Op {
 	// one block
 	s.height++
 	s.now += int64(tr.Pick(r, 0, 1, 5, 5, 7, 30)) * 1e9
+	if r.Chance(2) {
+		// the chain stood still for a long time (halt, restart): every pending unlock matures in one block
+		s.now += s.params.exit + 3600e9
+	}
 	s.push(s.genBegin(r))
 	if r.Chance(80) {
 		s.push(s.genReq(r))
